@@ -89,6 +89,17 @@ impl VerifConn {
         self.weak.upgrade().map(VerifStrong)
     }
 
+    /// Fill the command channel with `ForceClose` fillers (they hold no sender) until it is full;
+    /// `None` when no strong sender is left to do it with. `drain()` shows the fillers as `None`.
+    pub fn fill(&self) -> Option<usize> {
+        let tx = self.weak.upgrade()?;
+        let mut n = 0;
+        while tx.try_send(ProtocolCommand::ForceClose).is_ok() {
+            n += 1;
+        }
+        Some(n)
+    }
+
     /// Whether at least one strong sender exists (the connection task keeps running).
     pub fn alive(&self) -> bool {
         self.weak.upgrade().is_some()
@@ -174,7 +185,18 @@ impl VerifService {
 
     /// Queue `ConnectionEstablished` with a fresh active handle; the caller keeps the receiver.
     pub fn inject_established(&self, peer: PeerId, connection_id: usize, listener: bool) -> VerifConn {
-        let (tx, rx) = channel(64);
+        self.inject_established_with_capacity(peer, connection_id, listener, 64)
+    }
+
+    /// The same with a command channel of the given (tiny) capacity.
+    pub fn inject_established_with_capacity(
+        &self,
+        peer: PeerId,
+        connection_id: usize,
+        listener: bool,
+        capacity: usize,
+    ) -> VerifConn {
+        let (tx, rx) = channel(capacity);
         let weak = tx.downgrade();
         let id = ConnectionId::from(connection_id);
         let endpoint = if listener {
